@@ -285,3 +285,19 @@ func HeldViaWrapper(fn *ssa.Function, obj ssa.Value, lockField string) bool {
 	}
 	return true
 }
+
+// InlineScope returns fn together with the function literals that fn hands to a helper which calls them itself and does
+// nothing else with them (see WrappedClosures): their bodies run as part of fn, at the helper call.
+func InlineScope(fn *ssa.Function) []*ssa.Function {
+	out := []*ssa.Function{fn}
+	seen := map[*ssa.Function]bool{fn: true}
+	for i := 0; i < len(out); i++ {
+		for _, w := range WrappedClosures(out[i]) {
+			if !w.Escapes && len(w.Invokes) > 0 && !seen[w.Closure] {
+				seen[w.Closure] = true
+				out = append(out, w.Closure)
+			}
+		}
+	}
+	return out
+}
